@@ -381,9 +381,43 @@ def classify(diffs, src_net, fmt):
     return "spec"
 
 
+DT_NAMES = {"float64": "DFloat", "int64": "DInt", "bool": "DBool", "object": "DObject", "Int64": "DNullInt", "string": "DString"}
+
+
+def dtype_class(dt):
+    s_ = str(dt)
+    if s_ in ("Int64", "string", "bool", "object", "float64"):
+        return DT_NAMES[s_]
+    if getattr(dt, "kind", "") in ("i", "u"):
+        return "DInt"
+    return None
+
+
+def table_term(df):
+    """Gallina term of run_table for every column of df with a modelled dtype class and basic cells (not geo)"""
+    cols, names = [], []
+    for c in df.columns:
+        cls = dtype_class(df[c].dtype)
+        if c == "geo" or cls is None:
+            continue
+        vals = list(df[c].values)
+        if cls == "DObject" and not all(missing(v) or isinstance(v, (bool, np.bool_, int, np.integer, float, str)) for v in vals):
+            continue
+        try:
+            cells = cq.lst([cell_term(v) for v in vals])
+        except Exception:
+            continue
+        cols.append("(%s, (%s, %s))" % (cq.s(str(c)), cls, cells))
+        names.append(c)
+    if not cols or not all(isinstance(i, (int, np.integer)) for i in df.index):
+        return None
+    return "run_table %s %s" % (cq.lst([cq.z(int(i)) for i in df.index]), cq.lst(cols)), names
+
+
 def run(ctx):
     rng = ctx.rng
     terms, keep = [], []
+    tterms, tkeep = [], []
     tmp = ctx.workdir
     n_nets = ctx.n(48, 700)
     for it in range(n_nets):
@@ -437,6 +471,12 @@ def run(ctx):
                 terms.append("run_col %s %s" % (d, cq.lst([cell_term(v) for v in ser.values])))
                 back = None if n2 is None else [impl_cell(v) for v in n2[tab][c].values]
                 keep.append((case, c, d, [impl_cell(v) for v in ser.values], back))
+            # ---------------- column / table level model (C20.Column.run_table): every column of the table with the custom columns
+            tt = table_term(net[tab]) if (it % 2 == 0 or has_sub) else None      # every second net (run time)
+            if tt is not None:
+                tterms.append(tt[0])
+                tkeep.append((case, tab, tt[1], net[tab], None if n2 is None else n2[tab],
+                              {c: d_ for c, (d_, _s) in cols.items()}))
             # ---------------- other formats on a rotating schedule
             clean = copy.deepcopy(net)
             if has_sub:
@@ -479,6 +519,47 @@ def run(ctx):
                     ctx.violation(classify(diffs, net, fmt), "%s round trip differs: %s" % (fmt, diffs[:4]), case)
                 elif not res_equal(clean, n3):
                     ctx.violation("spec", "runpp results differ after the %s round trip" % fmt, case)
+    tmodel = ctx.coq_eval("c20t", "Base.QN C20.Model C20.Column", tterms, shard=6)
+    for (case, tab, names, src, back, cdt), m in zip(tkeep, tmodel):
+        ctx.corr_checked += 1
+        ctx.count("table_level_cases")
+        m_index, m_cols, m_classes = m
+        m_err = [nm for nm, r in m_cols if isinstance(r, cq.Err)]
+        if any(isinstance(r, cq.Err) and r.s == "unmodelled" for _n, r in m_cols):
+            ctx.disagreement("table %s: the model meets an unmodelled astype conversion in %s" % (tab, m_err), case)
+            continue
+        if back is None:
+            if not m_err and case["has_subnormal"]:
+                ctx.disagreement("impl load raised but the column model decodes every column of %s" % tab, case)
+            continue
+        if m_err:
+            ctx.disagreement("column model predicts a Range error in %s but the impl loaded the net" % m_err, case)
+            continue
+        bad = []
+        if [int(i) for i in m_index] != [int(i) for i in back.index] or str(back.index.dtype) != str(src.index.dtype):
+            bad.append("index: impl %s (%s) model %s" % (list(back.index)[:6], back.index.dtype, m_index[:6]))
+        if [nm for nm, _r in m_cols] != [c for c in back.columns if c in set(names)]:
+            bad.append("column order: impl %s model %s" % ([c for c in back.columns if c in set(names)], [nm for nm, _r in m_cols]))
+        for (nm, (dt, cells)), cls in zip(m_cols, m_classes):
+            if nm not in back.columns:
+                continue
+            if dtype_class(back[nm].dtype) != DT_NAMES.get(dt) or str(back[nm].dtype) != str(src[nm].dtype):
+                bad.append("dtype of %s: source %s impl %s model %s" % (nm, src[nm].dtype, back[nm].dtype, dt))
+            ic = [impl_cell(v) for v in back[nm].values]
+            mc = [model_cell(x) for x in cells]
+            if len(ic) != len(mc) or not all(_same_cell(b_, x) for b_, x in zip(ic, mc)):
+                bad.append("cells of %s: impl %s model %s" % (nm, ic[:4], mc[:4]))
+            if nm in cdt:          # the class computed by the Coq model = the class the per-cell correspondence uses
+                exp = cdt[nm]
+                if exp == "DObject":
+                    nn = [v for v in src[nm].values if not missing(v)]
+                    if nn and all(isinstance(v, (int, float)) and not isinstance(v, bool) for v in nn) and \
+                            (len(nn) < len(src) or any(isinstance(v, float) for v in nn)):
+                        exp = "DObjNum"
+                if {"objnum": "DObjNum"}.get(cls, DT_NAMES.get(cls)) != exp:
+                    bad.append("class of %s: model %s expected %s" % (nm, cls, exp))
+        if bad:
+            ctx.disagreement("table %s: %s" % (tab, "; ".join(bad)[:700]), case)
     model = ctx.coq_eval("c20", "Base.QN C20.Model", terms, shard=70)
     for (case, c, d, src, back), m in zip(keep, model):
         ctx.corr_checked += 1
